@@ -352,7 +352,30 @@ def r_flush_api(ctx):
     et = f.calls_to(WRITER + "::end_tag")
     rep.oblige(bool(pf), "FLUSH-API|flush|delivers", f.span, "flush() does not call private_flush")
     rep.oblige(bool(et), "FLUSH-API|flush|closes", f.span, "flush() does not end open masters")
-    if pf and et:
+    # semantically first: an abstract run of flush() from any writer state — at every hand-over to the destination no master is open any more
+    sem_ok = False
+    try:
+        from rules.writer_abs import WriterRun
+        from absval import Arr
+        from absint import get_at as _get_at
+        run = WriterRun(prog, "TagWriter::flush")
+        seen = []
+
+        def on_call(call, _run=run):
+            if (call.name or "").split("::")[-1] == "private_flush":
+                ot = _get_at(call.st.cells[("H", "arg", 1)], (_run.fx["open_tags"],))
+                seen.append(isinstance(ot, Arr) and ot.len.hi == 0)
+        run.extra_on_call = on_call
+        run.run()
+        sem_ok = bool(seen) and all(seen)
+        rep.instance("flush(): %d hand-over(s) observed abstractly, open-master stack empty at each: %s" % (len(seen), sem_ok))
+    except AnchorLost:
+        raise
+    except Exception as e:  # the structural form below still decides
+        rep.notes.append("abstract run of flush() not available: %r" % (e,))
+    if sem_ok:
+        rep.oblige(True, "FLUSH-API|flush|empty-at-delivery", f.span, "")
+    if pf and et and not sem_ok:
         last = f.calls_to("core::slice::last")
         ok = rep.oblige(bool(last), "FLUSH-API|flush|scans-last", f.span, "flush() does not look at open_tags.last()")
         if ok:
@@ -377,6 +400,8 @@ def r_flush_api(ctx):
                 if f.edge_dominates((b, t["otherwise"]), pbb):
                     good = True
         rep.oblige(good, "FLUSH-API|flush|none-dominates-delivery", f.span, "flush(): private_flush is reachable while open_tags.last() may still be Some")
+    if pf and et:
+        pbb = pf[0][0]
         # end_tag's error is propagated
         good = True
         for ebb, _t, _c in et:
